@@ -4,9 +4,8 @@ import re
 VOLATILE = ("Date-Unix-Epoch-Nanos", "Last-Modified-Unix-Epoch-Nanos")
 TOKEN = re.compile(rb"^[!#$%&'*+\-.^_`|~0-9A-Za-z]+$")
 # IANA registry (status code -> reason phrase) for the codes rws registers; the spec side of C05/C15
-IANA = {100: "Continue", 101: "Switching Protocols", 102: "Processing", 103: "Early Hints",
-        200: "OK", 201: "Created", 202: "Accepted", 203: "Non Authoritative Information", 204: "No Content", 205: "Reset Content",
-        206: "Partial Content", 207: "Multi-Status", 208: "Already Reported", 226: "IM Used"}
+IANA = {200: "OK", 204: "No Content", 206: "Partial Content", 400: "Bad Request", 404: "Not Found", 416: "Range Not Satisfiable",
+        500: "Internal Server Error", 501: "Not Implemented"}
 
 
 def split_head(raw):
@@ -28,7 +27,7 @@ def parse_response(raw):
         return None
     hs = []
     for l in lines[1:]:
-        if b"\r" in l or b"\n" in l or b"\x00" in l:
+        if b"\r" in l or b"\n" in l:
             return None
         k = l.find(b":")
         if k <= 0:
